@@ -12,6 +12,8 @@ pub struct WriteBuffer {
     row_count: usize,
     /// Total size in bytes (approximate)
     size_bytes: usize,
+    /// WAL sequence numbers of the buffered batches (for batches that went through the WAL)
+    wal_seqs: Vec<u64>,
 }
 
 impl WriteBuffer {
@@ -21,7 +23,15 @@ impl WriteBuffer {
             batches: Vec::new(),
             row_count: 0,
             size_bytes: 0,
+            wal_seqs: Vec::new(),
         }
+    }
+
+    /// Append a record batch together with the WAL sequence number it was logged under
+    pub fn append_with_seq(&mut self, batch: RecordBatch, wal_seq: Option<u64>) -> Result<()> {
+        self.append(batch)?;
+        self.wal_seqs.extend(wal_seq);
+        Ok(())
     }
 
     /// Append a record batch to the buffer
@@ -46,9 +56,18 @@ impl WriteBuffer {
 
     /// Take all batches from the buffer, leaving it empty
     pub fn take(&mut self) -> Vec<RecordBatch> {
+        self.take_with_seqs().0
+    }
+
+    /// Take all batches and the WAL sequence numbers they were logged under, leaving the
+    /// buffer empty
+    pub fn take_with_seqs(&mut self) -> (Vec<RecordBatch>, Vec<u64>) {
         self.row_count = 0;
         self.size_bytes = 0;
-        std::mem::take(&mut self.batches)
+        (
+            std::mem::take(&mut self.batches),
+            std::mem::take(&mut self.wal_seqs),
+        )
     }
 
     /// Check if the buffer is empty
@@ -76,6 +95,7 @@ impl WriteBuffer {
         self.batches.clear();
         self.row_count = 0;
         self.size_bytes = 0;
+        self.wal_seqs.clear();
     }
 }
 
